@@ -682,6 +682,135 @@ func caseSig(class string, c Case) string {
 }
 
 // ---------------------------------------------------------------------------
+// two-step histories: what GetResults expands is the record delivered LAST, alone
+
+// seqSource reports whatever record it currently holds (a fresh copy on every call)
+type seqSource struct {
+	mu   sync.Mutex
+	info *model.ProviderInfo
+}
+
+func (s *seqSource) cur() *model.ProviderInfo {
+	s.mu.Lock()
+	defer s.mu.Unlock()
+	if s.info == nil {
+		return nil
+	}
+	b, _ := json.Marshal(s.info)
+	var c model.ProviderInfo
+	if err := json.Unmarshal(b, &c); err != nil {
+		panic(err)
+	}
+	return &c
+}
+func (s *seqSource) Fetch(ctx context.Context, pid peer.ID) (*model.ProviderInfo, error) {
+	if pi := s.cur(); pi != nil && pi.AddrInfo.ID == pid {
+		return pi, nil
+	}
+	return nil, nil
+}
+func (s *seqSource) FetchAll(ctx context.Context) ([]*model.ProviderInfo, error) {
+	if pi := s.cur(); pi != nil {
+		return []*model.ProviderInfo{pi}, nil
+	}
+	return nil, nil
+}
+func (s *seqSource) String() string { return "sequence" }
+
+type HistCase struct {
+	V1   Case   `json:"v1"`   // the older record (advertisement time 1)
+	V2   Case   `json:"v2"`   // the newer record (advertisement time 2); its Ctx / Md are the lookup
+	Mode string `json:"mode"` // refresh: v1 cached and looked up, then v2 reported and refreshed
+	//                           miss: two sources, the first has v1, the second v2; one lookup misses
+}
+
+func timedInfo(cs Case, md int, t string, tagBase int) *model.ProviderInfo {
+	cs.Md = md
+	pi := buildInfo(cs)
+	pi.LastAdvertisementTime = t
+	// distinct addresses per version, so that results name the version they came from
+	shift := func(ai *peer.AddrInfo) { ai.Addrs = pcdrv.Addr(pcdrv.AddrTag(ai.Addrs) + tagBase) }
+	shift(&pi.AddrInfo)
+	if xp := pi.ExtendedProviders; xp != nil {
+		for i := range xp.Providers {
+			shift(&xp.Providers[i])
+		}
+		for j := range xp.Contextual {
+			for i := range xp.Contextual[j].Providers {
+				shift(&xp.Contextual[j].Providers[i])
+			}
+		}
+	}
+	return pi
+}
+
+func observe(res []model.ProviderResult, err error) Obs {
+	if err != nil {
+		return Obs{Kind: "err", Detail: err.Error()}
+	}
+	o := Obs{Kind: "ok"}
+	for _, r := range res {
+		it := Item{Ctx: r.ContextID, Md: r.Metadata, MdNil: r.Metadata == nil, ID: -1, Tag: -1}
+		if r.Provider != nil {
+			it.ID = pcdrv.PeerIndex(r.Provider.ID)
+			it.Tag = pcdrv.AddrTag(r.Provider.Addrs)
+		}
+		o.Items = append(o.Items, it)
+	}
+	return o
+}
+
+// runHistory returns what the LAST lookup did, the record it must be the expansion of
+// (v2 as delivered), and a failure description ("" = fine)
+func runHistory(h HistCase) (obs Obs, v2 *model.ProviderInfo, msg string) {
+	defer func() {
+		if r := recover(); r != nil {
+			obs, msg = Obs{Kind: "panic", Detail: fmt.Sprint(r)}, "GetResults panicked: "+fmt.Sprint(r)
+		}
+	}()
+	ctxID, md := ctxName(h.V2.Ctx), lookupMd(h.V2.Md)
+	i1 := timedInfo(h.V1, h.V2.Md, "2024-01-01T00:00:01Z", 0)
+	i2 := timedInfo(h.V2, h.V2.Md, "2024-01-01T00:00:02Z", 1000)
+	var pc *pcache.ProviderCache
+	var err error
+	if h.Mode == "miss" {
+		// "not every source reports extended providers": the older record first
+		pc, err = pcache.New(pcache.WithSource(&seqSource{info: i1}, &seqSource{info: i2}), pcache.WithPreload(false), pcache.WithRefreshInterval(0))
+		if err != nil {
+			panic(err)
+		}
+	} else {
+		src := &seqSource{info: i1}
+		pc, err = pcache.New(pcache.WithSource(src), pcache.WithRefreshInterval(0))
+		if err != nil {
+			panic(err)
+		}
+		o1 := observe(pc.GetResults(context.Background(), pcdrv.Peer(0), ctxID, md))
+		if want := specResults(i1, pcdrv.Peer(0), ctxID, md); o1.Kind != "ok" || !itemsEqual(want, o1.Items) {
+			return o1, i1, "the first lookup (record v1 alone) is not the expansion of v1"
+		}
+		src.mu.Lock()
+		src.info = i2
+		src.mu.Unlock()
+		if e := pc.Refresh(context.Background()); e != nil {
+			return Obs{Kind: "err", Detail: e.Error()}, i2, "Refresh failed: " + e.Error()
+		}
+	}
+	obs = observe(pc.GetResults(context.Background(), pcdrv.Peer(0), ctxID, md))
+	want := specResults(i2, pcdrv.Peer(0), ctxID, md)
+	if obs.Kind != "ok" || !itemsEqual(want, obs.Items) {
+		w, _ := json.Marshal(want)
+		g, _ := json.Marshal(obs)
+		return obs, i2, fmt.Sprintf("after the newer record v2 was delivered (%s), GetResults returned %s; the expansion of v2 alone is %s", h.Mode, g, w)
+	}
+	return obs, i2, ""
+}
+
+func histSig(h HistCase) string {
+	return "history:" + h.Mode + ":v1{" + caseSig("", h.V1) + "}:v2{" + caseSig("", h.V2) + "}"
+}
+
+// ---------------------------------------------------------------------------
 
 type failRec struct {
 	idx   int
@@ -721,6 +850,25 @@ func main() {
 	}
 
 	if c.Replay != "" {
+		var hr struct {
+			History *HistCase `json:"history"`
+		}
+		if err := c.LoadReplay(&hr); err == nil && hr.History != nil {
+			h := *hr.History
+			obs, v2, msg := runHistory(h)
+			b, _ := json.Marshal(h)
+			o, _ := json.Marshal(obs)
+			fmt.Printf("replay: history=%s\n  last lookup observed=%s\n", b, o)
+			c.Eval()
+			if msg != "" {
+				fmt.Println("ORACLE-FAIL:", msg)
+				c.Fail(histSig(h), msg, map[string]interface{}{"history": h})
+			}
+			if representable(obs, v2) {
+				c.Case("getresults", fmt.Sprintf("GRC %s 0 %s %s %s", coqRecord(v2), coqBytes(ctxName(h.V2.Ctx)), coqMd(lookupMd(h.V2.Md)), coqObs(obs)), map[string]interface{}{"history": h})
+			}
+			return
+		}
 		var cs Case
 		if err := c.LoadReplay(&cs); err != nil {
 			panic(err)
@@ -987,6 +1135,56 @@ func main() {
 		}
 	}
 
+	// ---- stream 6: two-step histories for one provider.  v1 (with extended providers) is
+	// cached and looked up; a strictly newer v2 (none / empty / other ones) is reported and
+	// the cache refreshed -- or both arrive in one miss from two sources; GetResults must
+	// then be the expansion of v2 ALONE.
+	v1s := []Rec{
+		{Chain: Set{Provs: []int{1}, Mds: []int{mdDiffA}}},
+		{Chain: Set{Provs: []int{1, 0}, Mds: []int{mdNil, mdDiffB}}, Ctxs: []CtxSet{{ID: 1, Override: false, Set: Set{Provs: []int{2}, Mds: []int{mdDiffA}}}}},
+		{Ctxs: []CtxSet{{ID: 1, Override: true, Set: Set{Provs: []int{3, 1}, Mds: []int{mdEmpty, mdDiffA}}}}},
+	}
+	v2s := []Rec{
+		{NoExt: true},
+		{},
+		{Chain: Set{Provs: []int{2}, Mds: []int{mdDiffB}}},
+		{Ctxs: []CtxSet{{ID: 1, Override: false, Set: Set{Provs: []int{1}, Mds: []int{mdNil}}}}},
+		{Chain: Set{Provs: []int{3}, Mds: []int{}}, Ctxs: []CtxSet{{ID: 2, Override: true, Set: Set{Provs: []int{1}, Mds: []int{mdDiffA}}}}},
+	}
+	var histFails []HistCase
+	for _, mode := range []string{"refresh", "miss"} {
+		for _, r1 := range v1s {
+			for _, r2 := range v2s {
+				for md := 0; md < 3; md++ {
+					h := HistCase{V1: Case{Rec: r1, Ctx: 1, Md: md, Path: "preload"}, V2: Case{Rec: r2, Ctx: 1, Md: md, Path: "preload"}, Mode: mode}
+					obs, v2, msg := runHistory(h)
+					c.Eval()
+					c.Count("history:" + mode)
+					c.Count("history-outcome:" + obs.Kind)
+					c.Nontrivial(histSig(h))
+					if representable(obs, v2) {
+						c.Case("getresults", fmt.Sprintf("GRC %s 0 %s %s %s", coqRecord(v2), coqBytes(ctxName(h.V2.Ctx)), coqMd(lookupMd(h.V2.Md)), coqObs(obs)),
+							map[string]interface{}{"history": h})
+					}
+					if msg != "" {
+						c.Count("history-failed")
+						histFails = append(histFails, h)
+					}
+				}
+			}
+		}
+	}
+	// the first failing history of each mode (the enumeration goes from small to large)
+	seenMode := map[string]bool{}
+	for _, h := range histFails {
+		if seenMode[h.Mode] {
+			continue
+		}
+		seenMode[h.Mode] = true
+		_, _, msg := runHistory(h)
+		c.Fail(histSig(h), msg, map[string]interface{}{"history": h})
+	}
+
 	// ---- failures: one shrunk representative per class first (the driver prints the
 	// first five), then the null record, then representatives that need the contextual
 	// loop, then the remaining hand-written bodies
@@ -1028,5 +1226,5 @@ func main() {
 	}
 
 	c.Res.Exhaustive = true
-	c.Res.Rule = fmt.Sprintf("records with <=2 entries per list: providers in {the looked-up provider, another}, metadata list of length {0, n-1, n, n+1} over {nil, empty, = looked-up, different}; one list exhaustive (%d sets) x looked-up metadata {nil, empty, non-empty} with the other list fixed (chain-level; contextual x override) — all written for Coq; the full product chain x contextual x override x looked-up metadata (%d records) through the direct oracle with a seeded sample written for Coq; seeded larger records (<=6 entries per list, 0..3 contextual sets incl. duplicate / non-matching context IDs) over four delivery paths (FetchAll at preload, Fetch on a miss, each also as JSON through pcache's HTTP source); hand-written JSON bodies; unknown provider. Non-trivial = the record has at least one extended provider entry", len(sets), total)
+	c.Res.Rule = fmt.Sprintf("records with <=2 entries per list: providers in {the looked-up provider, another}, metadata list of length {0, n-1, n, n+1} over {nil, empty, = looked-up, different}; one list exhaustive (%d sets) x looked-up metadata {nil, empty, non-empty} with the other list fixed (chain-level; contextual x override) — all written for Coq; the full product chain x contextual x override x looked-up metadata (%d records) through the direct oracle with a seeded sample written for Coq; seeded larger records (<=6 entries per list, 0..3 contextual sets incl. duplicate / non-matching context IDs) over four delivery paths (FetchAll at preload, Fetch on a miss, each also as JSON through pcache's HTTP source); hand-written JSON bodies; unknown provider; two-step histories for one provider (v1 with extended providers cached and looked up, then a strictly newer v2 without / with other ones reported and refreshed, or both delivered to one miss by two sources): GetResults must be the expansion of v2 alone. Non-trivial = the record has at least one extended provider entry", len(sets), total)
 }
